@@ -91,6 +91,30 @@ pub fn run(args: &Args) -> Report {
         ] {
             texts.push((wrap(body), "scenario"));
         }
+        // chains of helpers in every definition order: UNIT -> REF_UNIT chains (used from a COMPU_METHOD or not),
+        // GROUP / FUNCTION hierarchies whose only content sits at the far end (or nowhere)
+        for len in 2..=5usize {
+            for variant in 0..(if args.thorough { 24 } else { 6 }) {
+                let used = variant % 2 == 0;
+                let mut order: Vec<usize> = (1..=len).collect();
+                match variant % 3 {
+                    0 => {}
+                    1 => order.reverse(),
+                    _ => {
+                        for i in (1..order.len()).rev() {
+                            let j = rng.below(i + 1);
+                            order.swap(i, j);
+                        }
+                    }
+                }
+                let units: Vec<String> = order.iter().map(|&k| if k == 1 { "/begin UNIT u1 \"\" \"\" DERIVED /end UNIT".to_string() } else { format!("/begin UNIT u{k} \"\" \"\" DERIVED REF_UNIT u{} /end UNIT", k - 1) }).collect();
+                let head = if used { format!("/begin MEASUREMENT me \"\" UBYTE cm 0 0 0 1 /end MEASUREMENT /begin COMPU_METHOD cm \"\" IDENTICAL \"%1\" \"\" REF_UNIT u{len} /end COMPU_METHOD") } else { String::new() };
+                texts.push((wrap(&format!("{head} {}", units.join(" "))), "chain"));
+                let groups: Vec<String> = order.iter().map(|&k| if k == len { if used { format!("/begin GROUP g{k} \"\" /begin REF_MEASUREMENT me /end REF_MEASUREMENT /end GROUP") } else { format!("/begin GROUP g{k} \"\" /end GROUP") } } else { format!("/begin GROUP g{k} \"\" {} /begin SUB_GROUP g{} /end SUB_GROUP /end GROUP", if k == 1 { "ROOT" } else { "" }, k + 1) }).collect();
+                let funcs: Vec<String> = order.iter().map(|&k| if k == len { if used { format!("/begin FUNCTION f{k} \"\" /begin OUT_MEASUREMENT me /end OUT_MEASUREMENT /end FUNCTION") } else { format!("/begin FUNCTION f{k} \"\" /end FUNCTION") } } else { format!("/begin FUNCTION f{k} \"\" /begin SUB_FUNCTION f{} /end SUB_FUNCTION /end FUNCTION", k + 1) }).collect();
+                texts.push((wrap(&format!("/begin MEASUREMENT me \"\" UBYTE NO_COMPU_METHOD 0 0 0 1 /end MEASUREMENT {} {}", groups.join(" "), funcs.join(" "))), "chain"));
+            }
+        }
     }
     for (i, (text, family)) in texts.iter().enumerate() {
         let input = hex(text.as_bytes());
